@@ -1600,6 +1600,13 @@ class TypeSystem:  # noqa: PLR0904
             sub_class: subclass
         """
         self._graph.add_edge(super_class, sub_class)
+        # Must invalidate all caches, because their answers depend on the graph.
+        self.get_subclasses.cache_clear()
+        self.get_superclasses.cache_clear()
+        self.is_subclass.cache_clear()
+        self.is_subtype.cache_clear()
+        self.is_maybe_subtype.cache_clear()
+        self.subtype_distance.cache_clear()
 
     @functools.lru_cache(maxsize=1024)
     def get_subclasses(self, klass: TypeInfo) -> OrderedSet[TypeInfo]:
